@@ -15,7 +15,7 @@ import numpy as np
 import scipy.sparse as sps
 from hypothesis import strategies as st
 
-from ..core import Violation, require, require_close, require_equal
+from ..core import HarnessError, Violation, require, require_close, require_equal
 from ..gen.sparse import build_sparse, dense_of, sparse_spec
 
 ID = "C36"
@@ -36,7 +36,12 @@ RULE = (
     "lil / dok / dia / bsr, AdArrays) with 2..8, 40..300 or 600..3000 rows and up to 20000 stored entries; consecutive "
     "sparse operands deliberately share shape and nnz while their row pattern differs (row permutation, entries moved "
     "between rows) or share the pattern with new values / permuted columns; every application is compared exactly "
-    "with an independently built scipy 0/1 selection matrix times the operand. Non-trivial = at least 2 mapped indices in some slicer and an "
+    "with an independently built scipy 0/1 selection matrix times the operand. Another quarter are POOL HISTORIES: 2..4 "
+    "slicer objects R^N -> R^N (N 2..6, all constructor forms) and a sequence of 2..5 expressions, each a chain of "
+    "1..3 factors (a pool object, its .T, .T.T or .copy()) applied to an operand, written left-associated "
+    "(S0 @ S1 @ y) or right-associated (S0 @ (S1 @ y)); pool objects are re-used across expressions, in particular "
+    "what was an inner factor of a chain is later used alone / leftmost; oracle = product of the dense 0/1 matrices "
+    "of the factors times the operand, exact. Non-trivial = at least 2 mapped indices in some slicer and an "
     "operand with >= 2 rows; distinct = hash of spec."
 )
 BUDGET = {"quick": {"cases": 6000, "seconds": 40}, "thorough": {"cases": 400000, "seconds": 1100}}
@@ -48,22 +53,24 @@ LEVEL_TEXT = ("Exploration: thousands of generated slicer configurations, operan
 LEVEL_NOTE = ("Entry-by-entry operands have at most 6 rows, seeded history operands up to 3000 rows / 20000 stored "
               "entries (size-gated code paths above ~20000 entries are not reached); index maps are injective (sets), no repeated indices. Transposed slicers "
               "are not applied to AdArrays (docstring says that raises, the implementation returns P^T y; left "
-              "unspecified). Slicers are never re-used after chaining. Finds violations, does not prove absence.")
+              "unspecified). Finds violations, does not prove absence.")
 DESIGN_REF = "DESIGN.md section 4, C36"
 ASSUMPTIONS = [
     "domain and range indices are duplicate-free (index sets)",
-    "a slicer object that took part in a chain or pending operation is not re-used (the repository copies before chaining); plain S @ x is repeated on one object in histories",
+    "slicer objects are re-used across expressions and inside one chain, also after having been a factor of a slicer @ slicer product (a projection matrix is not changed by being multiplied)",
     "left operands are Python floats, scipy sparse matrices or AdArrays (numpy arrays as left operands are documented as unsupported)",
     "transposed slicers are not applied to AdArrays",
     "division forms use targets without zero entries",
 ]
 REQUIRED = {
-    "plain": 0.2, "chain2": 0.08, "chain3": 0.04, "pending-@": 0.03, "pending-*": 0.03, "pending-/": 0.02,
-    "pending-**": 0.02, "pending-+": 0.02, "pending--": 0.02, "left-float": 0.05, "left-ad": 0.05,
+    "plain": 0.1, "chain2": 0.04, "chain3": 0.02, "pending-@": 0.02, "pending-*": 0.015, "pending-/": 0.01,
+    "pending-**": 0.01, "pending-+": 0.01, "pending--": 0.01, "left-float": 0.03, "left-ad": 0.03,
     "y-vec": 0.1, "y-mat": 0.04, "y-sparse": 0.08, "y-ad": 0.1, "y-float": 0.05, "y-int": 0.01,
     "ctor-dom": 0.15, "ctor-rng": 0.15, "ctor-both": 0.15, "transposed": 0.15, "onto-shortcut": 0.05,
     "explicit-rsize": 0.15, "explicit-dsize": 0.15, "unsorted-range": 0.15, "unsorted-domain": 0.15,
-    "empty-indices": 0.01, "y-longer-than-domain": 0.05, "sparse-slice-general-path": 0.05,
+    "empty-indices": 0.005, "y-longer-than-domain": 0.05, "sparse-slice-general-path": 0.05,
+    "pool-history": 0.1, "chain": 0.08, "chain-then-alone": 0.02, "chain-transposed-reused": 0.005,
+    "chain-right-assoc": 0.02, "chain-same-object-twice": 0.01, "factor-copy": 0.03, "factor-T": 0.03, "factor-TT": 0.02,
     "history": 0.1, "history-equal-shape-nnz": 0.03, "large-operand": 0.02, "history-large": 0.005,
     "history-via-copy": 0.02, "history-via-T": 0.02, "history-via-TT": 0.02, "history-equal-pattern": 0.01,
 }
@@ -191,9 +198,60 @@ def _history(draw):
 
 
 @st.composite
+def _pool_slicer(draw, N):
+    """A slicer R^N -> R^N (domain and range sizes are N, explicitly or implied by the largest index), so that pool
+    objects, their transposes and copies compose in any order."""
+    k = draw(st.integers(1, N))
+    mode = draw(st.sampled_from(["dom", "rng", "both", "both"]))
+    dom = draw(_subset(N, k)) if mode != "rng" else None
+    rng = draw(_subset(N, k)) if mode != "dom" else None
+    dmax = max(dom) + 1 if dom is not None else k
+    rmax = max(rng) + 1 if rng is not None else k
+    dsize = draw(st.sampled_from([None, N])) if dmax == N else N
+    rsize = draw(st.sampled_from([None, N])) if rmax == N else N
+    return {"dom": dom, "rng": rng, "rsize": rsize, "dsize": dsize, "T": False}
+
+
+@st.composite
+def _pool_history(draw):
+    """A pool of 2..4 slicer objects and a sequence of 2..5 expressions; every expression is a chain of 1..3
+    factors (pool object, its .T, .T.T or .copy()) applied to an operand, left- or right-associated; the pool
+    objects are re-used across the expressions."""
+    N = draw(st.integers(2, 6))
+    npool = draw(st.integers(2, 4))
+    pool = [draw(_pool_slicer(N)) for _ in range(npool)]
+    exprs = []
+    ncol = draw(st.integers(1, 3))
+    last_inner = None  # (obj, kind) used as a non-first factor of the previous left chain
+    for _ in range(draw(st.integers(2, 5))):
+        ykind = draw(st.sampled_from(["vec", "vec", "mat", "sparse", "ad", "float"]))
+        kinds = ["self", "self", "self", "T", "T", "TT", "copy"] if ykind != "ad" else ["self", "self", "TT", "copy"]
+        L = draw(st.sampled_from([1, 1, 2, 2, 3]))
+        factors = []
+        for pos in range(L):
+            if pos == 0 and last_inner is not None and last_inner[1] in kinds and draw(st.booleans()):
+                obj, kind = last_inner  # re-use, alone or leftmost, what was inside the previous chain
+            else:
+                obj = draw(st.integers(0, npool - 1))
+                kind = draw(st.sampled_from(kinds))
+            factors.append({"obj": obj, "kind": kind})
+        assoc = draw(st.sampled_from(["left", "left", "right"])) if L > 1 else "left"
+        exprs.append({"factors": factors, "assoc": assoc,
+                      "y": draw(_operand(ykind, N, ncol, st.integers(-4, 5)))})
+        last_inner = None
+        if L > 1 and assoc == "left":
+            f = factors[draw(st.integers(1, L - 1))]
+            last_inner = (f["obj"], f["kind"])
+    return {"form": "pool", "N": N, "pool": pool, "exprs": exprs}
+
+
+@st.composite
 def _spec(draw):
-    if draw(st.sampled_from([False, False, False, True])):
+    top = draw(st.sampled_from(["std", "std", "std", "std", "history", "history", "pool", "pool"]))
+    if top == "history":
         return draw(_history())
+    if top == "pool":
+        return draw(_pool_history())
     form = draw(st.sampled_from(["plain", "plain", "plain", "chain", "chain", "pending", "pending", "pending"]))
     left_op = left_kind = None
     if form == "pending":
@@ -475,12 +533,97 @@ def _check_history(spec, pp):
     return {"labels": sorted(labels), "nontrivial": True}
 
 
+# ----------------------------------------------------------------------------- pool histories (chains, re-use)
+def _pool_reuse_classes(spec):
+    """-> (known, labels): known = a pool object that was the right operand of a slicer @ slicer product (as itself)
+    is used again, as itself or copied, where the recorded left operand is not overwritten."""
+    dirty, t_inner, any_inner = set(), set(), set()
+    labels = set()
+    known = False
+    for e in spec["exprs"]:
+        fs, left = e["factors"], e["assoc"] == "left"
+        for p, f in enumerate(fs):
+            lead = p == 0 or not left  # applied without a slicer to its left being recorded on it
+            if f["kind"] in ("self", "copy") and f["obj"] in dirty and lead:
+                known = True
+            if p == 0 and f["obj"] in any_inner:
+                labels.add("chain-then-alone")
+            if p == 0 and f["kind"] == "T" and f["obj"] in t_inner:
+                labels.add("chain-transposed-reused")
+        selfs = [f["obj"] for f in fs if f["kind"] == "self"]
+        if len(set(selfs)) < len(selfs):
+            labels.add("chain-same-object-twice")
+            if left:
+                known = True  # S @ S: the object becomes its own pending operand
+        if len(fs) > 1:
+            labels.add("chain")
+            labels.add("chain-left-assoc" if left else "chain-right-assoc")
+            if left:
+                for f in fs[1:]:
+                    any_inner.add(f["obj"])
+                    if f["kind"] == "self":
+                        dirty.add(f["obj"])
+                    if f["kind"] == "T":
+                        t_inner.add(f["obj"])
+    return known, labels
+
+
+def _known_pending_sticks(spec) -> bool:
+    return spec.get("form") == "pool" and _pool_reuse_classes(spec)[0]
+
+
+KNOWN = {"C36-slicer-product-leaves-pending-operand-on-right-slicer": _known_pending_sticks}
+
+
+def _check_pool(spec, pp):
+    mo = pp.matrix_operations
+    N = spec["N"]
+    pool = [_build_slicer(s, mo) for s in spec["pool"]]
+    Pd = [_dense_P(s, N) for s in spec["pool"]]
+    for P in Pd:
+        if P.shape != (N, N):
+            raise HarnessError(f"pool slicer is not {N} x {N}: {P.shape}")
+    known, labels = _pool_reuse_classes(spec)
+    labels |= {"pool-history"}
+    if known:
+        labels.add("right-operand-reused-as-itself")
+    for step, e in enumerate(spec["exprs"]):
+        env, names, M = {"y": _build_operand(e["y"], pp)}, [], np.eye(N)
+        for i, f in enumerate(e["factors"]):
+            S = pool[f["obj"]]
+            env[f"F{i}"] = {"self": lambda S=S: S, "T": lambda S=S: S.T, "TT": lambda S=S: S.T.T,
+                            "copy": lambda S=S: S.copy()}[f["kind"]]()
+            names.append(f"F{i}")
+            M = M @ (Pd[f["obj"]].T if f["kind"] == "T" else Pd[f["obj"]])
+            labels.add("factor-" + f["kind"])
+        if e["assoc"] == "left":
+            expr = " @ ".join(names + ["y"])
+        else:
+            expr = " @ (".join(names + ["y"]) + ")" * len(names)
+        labels.add("y-" + e["y"]["kind"])
+        val, jac = _dense_operand(e["y"], N)
+        got = eval(expr, {}, env)  # noqa: S307 - expression built from a fixed grammar
+        desc = " @ ".join(f"S{f['obj']}" + {"self": "", "T": ".T", "TT": ".T.T", "copy": ".copy()"}[f["kind"]]
+                          for f in e["factors"])
+        what = f"expression {step}: {desc} @ y ({e['assoc']}-associated) in history {spec}"
+        if e["y"]["kind"] == "ad":
+            exp = ("ad", M @ val, M @ jac)
+        elif e["y"]["kind"] == "sparse":
+            exp = ("sparse", M @ val)
+        else:
+            exp = ("nd", M @ val)
+        _compare(got, exp, pp, True, what)
+    return {"labels": sorted(labels), "nontrivial": True}
+
+
 # ----------------------------------------------------------------------------- check
 def check(spec):
     import porepy as pp
 
     if spec.get("form") == "history":
         return _check_history(spec, pp)
+    if spec.get("form") == "pool":
+        return _check_pool(spec, pp)
     mo = pp.matrix_operations
     sl, y, left = spec["slicers"], spec["y"], spec["left"]
     labels = set()
